@@ -155,6 +155,8 @@ class Interp:
         if isinstance(v, VTuple):
             return z3.BoolVal(len(v.items) > 0)
         if isinstance(v, VDict):
+            if self.st.heap[v.loc].kkind is None:
+                return z3.BoolVal(False)
             return z3.Length(self.st.heap[v.loc].keys) > 0
         if isinstance(v, VSet):
             c = self.st.heap[v.loc]
@@ -307,6 +309,8 @@ class Interp:
         if hasattr(a, 't') and hasattr(b, 't') and type(a) is type(b):
             return a.t == b.t
         if isinstance(a, VCallable) and isinstance(b, VCallable):
+            return z3.BoolVal(a.name == b.name)
+        if isinstance(a, (VClass, VBuiltin)) and isinstance(b, (VClass, VBuiltin)):
             return z3.BoolVal(a.name == b.name)
         return z3.BoolVal(False)
 
@@ -626,6 +630,8 @@ class Interp:
     # ------------------------------------------------------------ dict primitives
     def dict_has(self, d, key):
         c = self.st.heap[d.loc]
+        if c.kkind is None:
+            return z3.BoolVal(False)
         kt = self.term_of(key, c.kkind)
         return z3.Contains(c.keys, z3.Unit(kt))
 
@@ -637,6 +643,14 @@ class Interp:
 
     def dict_set(self, d, key, v):
         c = self.st.heap[d.loc]
+        if c.kkind is None:
+            kk = self.kind_of(key)
+            if isinstance(v, (VSeq, VList)):
+                vk = sym.KSeq(self.seq_term(v)[1])
+            else:
+                vk = self.kind_of(v)
+            c = DictCell(z3.Empty(z3.SeqSort(kk.sort)), z3.K(kk.sort, vk.fresh('dflt').t), kk, vk)
+            self.st.heap[d.loc] = c
         kt = self.term_of(key, c.kkind)
         if c.vlist is not None:
             vt, k = self.seq_term(v)
@@ -652,6 +666,11 @@ class Interp:
         """Remove a present key; returns nothing. Introduces the witness split keys == A ++ [k] ++ B."""
         c = self.st.heap[d.loc]
         ks = c.keys.sort()
+        for (hk, hkey, ha, hb) in self.st.ghost.get('_split_hints', []):
+            # the contract's pre-state already names the split of this key sequence at this key
+            if hk.eq(c.keys) and hkey.eq(kt):
+                self.st.heap[d.loc] = c.replace(keys=z3.Concat(ha, hb))
+                return ha, hb
         a = z3.Const(sym.fresh_name('kA'), ks)
         b = z3.Const(sym.fresh_name('kB'), ks)
         self.st.assume(c.keys == z3.Concat(a, z3.Unit(kt), b))
@@ -740,7 +759,7 @@ class Interp:
     def expr_Dict(self, e, fr):
         if e.keys:
             raise Unsupported('non-empty dict display')
-        return VStr('__emptydict__')  # typed on first assignment by the contract; see set_attr hooks
+        return self.st.new_dict(DictCell(None, None, None, None))     # typed on first store
 
     def expr_Attribute(self, e, fr):
         obj = self.eval(e.value, fr)
@@ -794,6 +813,10 @@ class Interp:
             c = self.st.heap[base.loc]
             kt = self.term_of(key, c.kkind)
             has = z3.Contains(c.keys, z3.Unit(kt))
+            if self.spec_mode:
+                if c.vlist is not None:
+                    return VSeq(z3.Select(c.vals, kt), c.vlist)
+                return c.vkind.wrap(z3.Select(c.vals, kt))
             if self.branch(has):
                 return self.dict_get_value(base, kt)
             if c.default_empty:
@@ -1316,6 +1339,8 @@ class Interp:
     def seq_index(self, recv, item):
         t, k = self.seq_term(recv)
         it = self.term_of(item, k)
+        if self.spec_mode:
+            return VInt(z3.IndexOf(t, z3.Unit(it), 0))
         if not self.branch(z3.Contains(t, z3.Unit(it))):
             self.raise_('ValueError')
         return VInt(z3.IndexOf(t, z3.Unit(it), 0))
@@ -1390,6 +1415,10 @@ class Interp:
             xt = self.term_of(args[0], c.kind)
             if not self.branch(z3.Contains(c.term, z3.Unit(xt))):
                 self.raise_('ValueError')
+            for (hk, hkey, ha, hb) in self.st.ghost.get('_split_hints', []):
+                if hk.eq(c.term) and hkey.eq(xt):
+                    self.st.set_list_term(recv.loc, z3.Concat(ha, hb))
+                    return NONE
             a = z3.Const(sym.fresh_name('rmA'), c.term.sort())
             b = z3.Const(sym.fresh_name('rmB'), c.term.sort())
             self.st.assume(c.term == z3.Concat(a, z3.Unit(xt), b))
@@ -1404,6 +1433,15 @@ class Interp:
 
     def dict_method(self, recv, name, args, kwargs):
         c = self.st.heap[recv.loc]
+        if c.kkind is None:
+            if name in ('pop', 'get'):
+                if len(args) > 1:
+                    return args[1]
+                if name == 'get':
+                    return NONE
+                self.raise_('KeyError')
+            if name == 'values' or name == 'keys':
+                return VSeq(None, None)
         if name == 'pop':
             kt = self.term_of(args[0], c.kkind)
             has = z3.Contains(c.keys, z3.Unit(kt))
